@@ -512,6 +512,14 @@ func GenC08(seed uint64) *Plan {
 		p.Faults.HTTPPerMille = g.between(20, 150)
 		p.Faults.HTTPKinds = 1<<hfConnErr | 1<<hfStatus | 1<<hfTruncated | 1<<hfNonJSON | 1<<hfRPCError | 1<<hfNullResult
 	}
+	if !cs.HeadMode && g.chance(25) {
+		// free-running layer: no hooks, no faults, real mutexes and real
+		// goroutines; small max-reads and one hot range so that callers
+		// arrive while a fetch of that range is in flight
+		p.FreeSteps = 1
+		p.Faults = FaultPlan{}
+		cs.MaxReads = g.between(1, 3)
+	}
 	if cs.HeadMode {
 		p.Faults.GrowPerMille = 60
 		p.Faults.MaxGrow = 30
@@ -524,5 +532,10 @@ func GenC08(seed uint64) *Plan {
 
 func init() {
 	Generators["C08"] = GenC08
-	Runners["C08"] = RunC08
+	Runners["C08"] = func(t *testing.T, plan *Plan, st *core.Stream, extra Extra, keepLog bool) *Result {
+		if plan.FreeSteps > 0 {
+			return RunC08Free(t, plan, st, extra, keepLog)
+		}
+		return RunC08(t, plan, st, extra, keepLog)
+	}
 }
